@@ -51,14 +51,21 @@ def shape_only_sA0(case):
 SHAPES = {}
 
 
-def convert_both(path):
+def convert_both(path, py_first=False):
+    """Both conversions of one file, in either order (each back end must stand on its own: the Python
+    conversion may not rely on a preceding C++ conversion of the same file, nor the other way round)."""
     from decaylanguage.modeling.ampgen2goofit import ampgen2goofit, ampgen2goofitpy
 
     A.install_memo()
+    py = None
+    if py_first:
+        with impl(ID, "ampgen2goofitpy"):
+            py = ampgen2goofitpy(path, ret_output=True)
     with impl(ID, "ampgen2goofit"):
         cpp = ampgen2goofit(path, ret_output=True)
-    with impl(ID, "ampgen2goofitpy"):
-        py = ampgen2goofitpy(path, ret_output=True)
+    if py is None:
+        with impl(ID, "ampgen2goofitpy"):
+            py = ampgen2goofitpy(path, ret_output=True)
     return cpp, py
 
 
@@ -222,7 +229,7 @@ def c19_case(draw):
         extras.append({"k": "var", "n": nm, "flag": str(draw(st.sampled_from((0, 2, 3)))), "v": draw(N.num_literal(forms=("dec", "neg", "int", "Exp"))),
                        "e": draw(st.sampled_from(("0", "0.5", "1e-3", "0.0")))})
     return {"event": list(event), "amps": amps, "c": cs, "extras": extras, "kmatrix_family": draw(st.integers(0, 9)) > 0,
-            "order": draw(st.integers(0, 5))}
+            "order": draw(st.integers(0, 5)), "py_first": draw(st.booleans())}
 
 
 def to_ast(case):
@@ -248,7 +255,7 @@ def check_case(case, rec):
     with tempfile.TemporaryDirectory(prefix="c19_") as td:
         path = Path(td) / "model.txt"
         path.write_text(text)
-        cpp, py = convert_both(str(path))
+        cpp, py = convert_both(str(path), py_first=bool(case.get("py_first")))
         # string-returning call == what would be printed
         if case.get("check_print", True):
             from decaylanguage.modeling.ampgen2goofit import ampgen2goofit, ampgen2goofitpy
@@ -282,6 +289,7 @@ def check_case(case, rec):
         classes.append("mixed-fix-flags")
     if case["extras"]:
         classes.append("extra-fit-parameters")
+    classes.append("python-converted-first" if case.get("py_first") else "cpp-converted-first")
     rec.case(case, len(case["amps"]) >= 2 and free and nonrbw, sorted(set(classes)), sample=lambda: {"text": text, "cpp_tail": cpp[-700:], "python_tail": py[-600:]})
 
 
@@ -293,7 +301,7 @@ def shipped_unit(rec, append_sA0):
     with tempfile.TemporaryDirectory(prefix="c19s_") as td:
         path = Path(td) / "DtoKpipipi_v2.txt"
         path.write_text(src + ("\nsA_0    2    -0.15    0\n" if append_sA0 else ""))
-        cpp, py = convert_both(str(path))
+        cpp, py = convert_both(str(path), py_first=append_sA0)
     f17, namps = compare_models(cpp, py, append_sA0, True, "shipped model" + (" + sA_0 line" if append_sA0 else ""))
     case = {"shipped": True, "append_sA0": append_sA0}
     if f17:
